@@ -10,6 +10,7 @@ import (
 	"sort"
 
 	"gopkg.in/typ.v4/maps"
+	"gopkg.in/typ.v4/sets"
 	"gopkg.in/typ.v4/slices"
 	"verif/harness/core"
 )
@@ -275,6 +276,173 @@ func scribble(r []int) {
 	}
 }
 
+// ---- call logs ----
+//
+// Every callback handed to the code is wrapped: the arguments of each call are recorded in order (at most
+// logCap entries are kept, all are counted). What is done with a log:
+//   - a callback must only ever see elements of the input (and, for acc, the threaded state): failure otherwise;
+//   - Fold / FoldReverse / MapErr: the property text fixes the calls -> compared with the definition, failure;
+//   - the other functions: the property fixes the result only. The log is compared with what the present code does
+//     (first decisive element for the search loops, every element once for the others); when it agrees it is handed
+//     to the call-log model (Some log), when it differs the case is counted (calls_differ_from_present_code) and the
+//     model is not asked about the calls (None). Not a failure.
+const logCap = 1 << 16
+
+type callLog struct {
+	unary []int
+	pairs [][2]int
+	total int
+}
+
+func (g *callLog) add1(v int) {
+	g.total++
+	if len(g.unary) < logCap {
+		g.unary = append(g.unary, v)
+	}
+}
+func (g *callLog) add2(a, b int) {
+	g.total++
+	if len(g.pairs) < logCap {
+		g.pairs = append(g.pairs, [2]int{a, b})
+	}
+}
+func (g *callLog) pred(f func(int) bool) func(int) bool {
+	return func(v int) bool { g.add1(v); return f(v) }
+}
+func (g *callLog) rel(f func(a, b int) bool) func(a, b int) bool {
+	return func(a, b int) bool { g.add2(a, b); return f(a, b) }
+}
+func (g *callLog) same(o *callLog) bool {
+	if g.total != o.total || len(g.unary) != len(o.unary) || len(g.pairs) != len(o.pairs) {
+		return false
+	}
+	if !core.Eq(g.unary, o.unary) {
+		return false
+	}
+	for i := range g.pairs {
+		if g.pairs[i] != o.pairs[i] {
+			return false
+		}
+	}
+	return true
+}
+
+// searchCalls: what a loop that stops at the first element with stop(v) calls its callback with
+func searchCalls(l []int, stop func(int) bool) *callLog {
+	g := &callLog{}
+	for _, v := range l {
+		g.add1(v)
+		if stop(v) {
+			break
+		}
+	}
+	return g
+}
+
+// a sets.Set that is not maps.Set: slice backed, records whether a mutating method was called
+type listSet struct {
+	vals    []int
+	mutated *bool
+}
+
+func newListSet(vals []int) *listSet {
+	s := &listSet{mutated: new(bool)}
+	for _, v := range vals {
+		if !s.Has(v) {
+			s.vals = append(s.vals, v)
+		}
+	}
+	return s
+}
+func (s *listSet) String() string { return fmt.Sprint(s.vals) }
+func (s *listSet) Len() int       { return len(s.vals) }
+func (s *listSet) Has(v int) bool {
+	for _, x := range s.vals {
+		if x == v {
+			return true
+		}
+	}
+	return false
+}
+func (s *listSet) Add(v int) bool {
+	*s.mutated = true
+	if s.Has(v) {
+		return false
+	}
+	s.vals = append(s.vals, v)
+	return true
+}
+func (s *listSet) AddSet(o sets.Set[int]) int {
+	n := 0
+	o.Range(func(v int) bool {
+		if s.Add(v) {
+			n++
+		}
+		return true
+	})
+	return n
+}
+func (s *listSet) Remove(v int) bool {
+	*s.mutated = true
+	for i, x := range s.vals {
+		if x == v {
+			s.vals = append(s.vals[:i:i], s.vals[i+1:]...)
+			return true
+		}
+	}
+	return false
+}
+func (s *listSet) RemoveSet(o sets.Set[int]) int {
+	n := 0
+	o.Range(func(v int) bool {
+		if s.Remove(v) {
+			n++
+		}
+		return true
+	})
+	return n
+}
+func (s *listSet) Clone() sets.Set[int] { return newListSet(s.vals) }
+func (s *listSet) Slice() []int         { return clone(s.vals) }
+func (s *listSet) pick(o sets.Set[int], keepIfIn bool) *listSet {
+	r := newListSet(nil)
+	for _, v := range s.vals {
+		if o.Has(v) == keepIfIn {
+			r.vals = append(r.vals, v)
+		}
+	}
+	return r
+}
+func (s *listSet) Intersect(o sets.Set[int]) sets.Set[int] { return s.pick(o, true) }
+func (s *listSet) SetDiff(o sets.Set[int]) sets.Set[int]   { return s.pick(o, false) }
+func (s *listSet) Union(o sets.Set[int]) sets.Set[int] {
+	r := newListSet(s.vals)
+	o.Range(func(v int) bool {
+		if !r.Has(v) {
+			r.vals = append(r.vals, v)
+		}
+		return true
+	})
+	return r
+}
+func (s *listSet) SymDiff(o sets.Set[int]) sets.Set[int] {
+	r := s.pick(o, false)
+	o.Range(func(v int) bool {
+		if !s.Has(v) {
+			r.vals = append(r.vals, v)
+		}
+		return true
+	})
+	return r
+}
+func (s *listSet) Range(f func(int) bool) {
+	for _, v := range clone(s.vals) {
+		if !f(v) {
+			return
+		}
+	}
+}
+
 // diffLists describes how got differs from want (whole lists when short, else the first difference)
 func diffLists(got, want []int) string {
 	if len(got) <= 48 && len(want) <= 48 {
@@ -298,6 +466,36 @@ func diffLists(got, want []int) string {
 		return l[lo:hi]
 	}
 	return fmt.Sprintf("len got %d want %d; first difference at index %d: got ...%v... want ...%v...", len(got), len(want), i, win(got), win(want))
+}
+
+// foldCalls: the property fixes the calls of acc: (state so far, element) for every element in the order given,
+// each exactly once. order is the input in the order the function has to visit it.
+func foldCalls(c *core.Ctx, cs Case, kind string, log *callLog, order []int, acc func(s, v int) int) {
+	if kind != "" {
+		return
+	}
+	if log.total != len(order) {
+		c.Fail(cs.Fn+": acc is not called exactly once per element", fmt.Sprintf("%d calls for %d elements", log.total, len(order)))
+		return
+	}
+	state := cs.V
+	for i, v := range order {
+		if i >= len(log.pairs) {
+			break
+		}
+		if log.pairs[i] != [2]int{state, v} {
+			c.Fail(cs.Fn+": acc is not applied to the elements in the specified order with the state so far",
+				fmt.Sprintf("call %d was acc(%d, %d), want acc(%d, %d)", i, log.pairs[i][0], log.pairs[i][1], state, v))
+			return
+		}
+		state = acc(state, v)
+	}
+}
+func foldCallsTerm(log *callLog, toModel bool) string {
+	if !toModel {
+		return "[]"
+	}
+	return coqPairs(log.pairs)
 }
 
 func hasDup(l []int) bool {
@@ -399,6 +597,59 @@ func execSlice(c *core.Ctx, cs Case) {
 			c.Fail(cs.Fn+": "+what, fmt.Sprintf("got %v want %v", got, want))
 		}
 	}
+	if cs.Fn == "DistinctFunc" && n > 100 {
+		big = true // its call log is quadratic: too long for a Coq term
+	}
+	toModel := emitModel && !big
+	log := &callLog{} // calls of the callback of this case
+	elem := map[int]bool{}
+	for _, v := range l {
+		elem[v] = true
+	}
+	// a callback must never be handed a value that is not an element of the input
+	onlyElements := func(extra ...int) {
+		ok := func(v int) bool {
+			if elem[v] {
+				return true
+			}
+			for _, e := range extra {
+				if e == v {
+					return true
+				}
+			}
+			return false
+		}
+		for _, v := range log.unary {
+			if !ok(v) {
+				c.Fail(cs.Fn+": callback called with a value that is not an element of the input", fmt.Sprint(v))
+				return
+			}
+		}
+		for _, p := range log.pairs {
+			if !ok(p[0]) || !ok(p[1]) {
+				c.Fail(cs.Fn+": callback called with a value that is not an element of the input", fmt.Sprint(p))
+				return
+			}
+		}
+	}
+	// the calls are not fixed by the property: Some log for the model when they are those of the present code
+	unspecifiedCalls := func(present *callLog) string {
+		if kind != "" {
+			return "None"
+		}
+		if !log.same(present) {
+			c.Count("calls_differ_from_present_code")
+			return "None"
+		}
+		c.Count("calls_as_present_code")
+		if !toModel || log.total > len(log.unary)+len(log.pairs) {
+			return "None" // not sent to the model anyway / truncated log
+		}
+		if log.pairs != nil {
+			return core.Some(coqPairs(log.pairs))
+		}
+		return core.Some(core.ZList(log.unary))
+	}
 
 	switch cs.Fn {
 	case "Index":
@@ -412,11 +663,12 @@ func execSlice(c *core.Ctx, cs Case) {
 	case "IndexFunc":
 		p := predOf(cs.P[0], cs.R)
 		var got int
-		call(func() { got = slices.IndexFunc(in, p) })
+		call(func() { got = slices.IndexFunc(in, log.pred(p)) })
 		noPanic()
 		expectInt(got, refIndex(l, p), "first position satisfying f, or -1")
+		onlyElements()
 		if kind == "" {
-			term = fmt.Sprintf("CIndexFunc %s %s %s", L, coqPred(cs.P[0], cs.R), core.Z(got))
+			term = fmt.Sprintf("CIndexFunc %s %s %s %s", L, coqPred(cs.P[0], cs.R), core.Z(got), unspecifiedCalls(searchCalls(l, p)))
 		}
 	case "Contains":
 		var got bool
@@ -429,17 +681,30 @@ func execSlice(c *core.Ctx, cs Case) {
 	case "ContainsFunc":
 		eq := eqOf(cs.Eq, cs.P[0])
 		var got bool
-		call(func() { got = slices.ContainsFunc(in, cs.V, eq) })
+		call(func() { got = slices.ContainsFunc(in, cs.V, log.rel(eq)) })
 		noPanic()
 		expectBool(got, refIndex(l, func(x int) bool { return eq(x, cs.V) }) >= 0, "membership up to equals")
+		onlyElements(cs.V)
+		present := &callLog{pairs: [][2]int{}}
+		for _, v := range l {
+			present.add2(v, cs.V)
+			if eq(v, cs.V) {
+				break
+			}
+		}
+		if log.pairs == nil {
+			log.pairs = [][2]int{}
+		}
 		if kind == "" {
-			term = fmt.Sprintf("CContainsFunc %s %s %s %s", L, core.Z(cs.V), coqEq(cs.Eq, cs.P[0]), core.Bool(got))
+			term = fmt.Sprintf("CContainsFunc %s %s %s %s %s", L, core.Z(cs.V), coqEq(cs.Eq, cs.P[0]), core.Bool(got), unspecifiedCalls(present))
 		}
 	case "Trim", "TrimLeft", "TrimRight", "TrimFunc", "TrimLeftFunc", "TrimRightFunc":
 		var p func(int) bool
 		isFunc := cs.Fn == "TrimFunc" || cs.Fn == "TrimLeftFunc" || cs.Fn == "TrimRightFunc"
+		var lp func(int) bool // the logging predicate handed to the Func variants
 		if isFunc {
 			p = predOf(cs.P[0], cs.R)
+			lp = log.pred(p)
 		} else {
 			p = func(x int) bool { return refIndex(cs.U, func(y int) bool { return y == x }) >= 0 }
 		}
@@ -455,11 +720,11 @@ func execSlice(c *core.Ctx, cs Case) {
 			case "TrimRight":
 				got, which, left = slices.TrimRight(in, uin), "TRight", false
 			case "TrimFunc":
-				got = slices.TrimFunc(in, p)
+				got = slices.TrimFunc(in, lp)
 			case "TrimLeftFunc":
-				got, which, right = slices.TrimLeftFunc(in, p), "TLeft", false
+				got, which, right = slices.TrimLeftFunc(in, lp), "TLeft", false
 			case "TrimRightFunc":
-				got, which, left = slices.TrimRightFunc(in, p), "TRight", false
+				got, which, left = slices.TrimRightFunc(in, lp), "TRight", false
 			}
 		})
 		noPanic()
@@ -473,7 +738,28 @@ func execSlice(c *core.Ctx, cs Case) {
 		}
 		obs := core.Res(kind, core.ZList(got))
 		if isFunc {
-			term = fmt.Sprintf("CTrimFunc %s %s %s %s", which, L, coqPred(cs.P[0], cs.R), obs)
+			onlyElements()
+			// present code: from the end down to the first wanted element, then from the start of what is left
+			present := &callLog{}
+			end := n
+			if right {
+				for end > 0 {
+					present.add1(l[end-1])
+					if !p(l[end-1]) {
+						break
+					}
+					end--
+				}
+			}
+			if left {
+				for i := 0; i < end; i++ {
+					present.add1(l[i])
+					if !p(l[i]) {
+						break
+					}
+				}
+			}
+			term = fmt.Sprintf("CTrimFunc %s %s %s %s %s", which, L, coqPred(cs.P[0], cs.R), obs, unspecifiedCalls(present))
 		} else {
 			term = fmt.Sprintf("CTrim %s %s %s %s", which, L, core.ZList(cs.U), obs)
 		}
@@ -496,7 +782,7 @@ func execSlice(c *core.Ctx, cs Case) {
 	case "DistinctFunc":
 		eq := eqOf(cs.Eq, cs.P[0])
 		var got []int
-		call(func() { got = slices.DistinctFunc(in, eq) })
+		call(func() { got = slices.DistinctFunc(in, log.rel(eq)) })
 		noPanic()
 		if cs.Eq == "mod" || (cs.Eq == "le" && cs.P[0] == 0) { // transitive
 			if cs.Eq == "mod" && n > quadraticLimit {
@@ -508,8 +794,28 @@ func execSlice(c *core.Ctx, cs Case) {
 		} else {
 			expectList(got, refGreedy(l, eq), "elements not equal(kept element, element) to an element kept before")
 		}
+		onlyElements()
 		if kind == "" {
-			term = fmt.Sprintf("CDistinctFunc %s %s %s", L, coqEq(cs.Eq, cs.P[0]), core.ZList(got))
+			// present code: every element against the elements kept so far, until one is equal
+			present := &callLog{pairs: [][2]int{}}
+			kept := []int{}
+			for _, v := range l {
+				found := false
+				for _, r := range kept {
+					present.add2(r, v)
+					if eq(r, v) {
+						found = true
+						break
+					}
+				}
+				if !found {
+					kept = append(kept, v)
+				}
+			}
+			if log.pairs == nil {
+				log.pairs = [][2]int{}
+			}
+			term = fmt.Sprintf("CDistinctFunc %s %s %s %s", L, coqEq(cs.Eq, cs.P[0]), core.ZList(got), unspecifiedCalls(present))
 			ret = got
 		}
 	case "TryGet":
@@ -566,28 +872,35 @@ func execSlice(c *core.Ctx, cs Case) {
 		var got bool
 		want := false
 		if cs.Fn == "Any" {
-			call(func() { got = slices.Any(in, p) })
+			call(func() { got = slices.Any(in, log.pred(p)) })
 			want = len(refFilter(l, p)) > 0
 		} else {
-			call(func() { got = slices.All(in, p) })
+			call(func() { got = slices.All(in, log.pred(p)) })
 			want = len(refFilter(l, p)) == n
 		}
 		noPanic()
 		expectBool(got, want, "quantifier over the elements")
+		onlyElements()
 		if kind == "" {
-			term = fmt.Sprintf("C%s %s %s %s", cs.Fn, L, coqPred(cs.P[0], cs.R), core.Bool(got))
+			decisive := p // Any stops at the first element satisfying cond, All at the first that does not
+			if cs.Fn == "All" {
+				decisive = func(v int) bool { return !p(v) }
+			}
+			term = fmt.Sprintf("C%s %s %s %s %s", cs.Fn, L, coqPred(cs.P[0], cs.R), core.Bool(got), unspecifiedCalls(searchCalls(l, decisive)))
 		}
 	case "Map":
 		conv := convOf(cs.P)
 		var got []int
-		call(func() { got = slices.Map(in, func(v int) int { r, _ := conv(v); return r }) })
+		call(func() { got = slices.Map(in, func(v int) int { log.add1(v); r, _ := conv(v); return r }) })
 		noPanic()
 		want := make([]int, n)
 		for i := range l {
 			want[i] = l[i]*cs.P[0] + cs.P[1]
 		}
 		expectList(got, want, "conv applied to every element, in order")
-		term = fmt.Sprintf("CMap %s %s %s", L, coqConv(cs.P), core.Res(kind, core.ZList(got)))
+		onlyElements()
+		term = fmt.Sprintf("CMap %s %s %s %s", L, coqConv(cs.P), core.Res(kind, core.ZList(got)),
+			unspecifiedCalls(searchCalls(l, func(int) bool { return false })))
 		ret = got
 	case "MapErr":
 		conv := convOf(cs.P)
@@ -599,6 +912,8 @@ func execSlice(c *core.Ctx, cs Case) {
 		})
 		noPanic()
 		first := refIndex(l, func(v int) bool { _, e := conv(v); return e != nil })
+		log.unary = calls
+		onlyElements()
 		errTerm := "None"
 		if first < 0 {
 			c.Count("maperr_no_error")
@@ -634,34 +949,44 @@ func execSlice(c *core.Ctx, cs Case) {
 	case "Filter":
 		p := predOf(cs.P[0], cs.R)
 		var got []int
-		call(func() { got = slices.Filter(in, p) })
+		call(func() { got = slices.Filter(in, log.pred(p)) })
 		noPanic()
 		expectList(got, refFilter(l, p), "matching elements in original order")
+		onlyElements()
 		if kind == "" {
-			term = fmt.Sprintf("CFilter %s %s %s", L, coqPred(cs.P[0], cs.R), core.ZList(got))
+			term = fmt.Sprintf("CFilter %s %s %s %s", L, coqPred(cs.P[0], cs.R), core.ZList(got),
+				unspecifiedCalls(searchCalls(l, func(int) bool { return false })))
 			ret = got
 		}
 	case "Fold":
 		acc := accOf(cs.P)
 		var got int
-		call(func() { got = slices.Fold(in, cs.V, acc) })
+		call(func() { got = slices.Fold(in, cs.V, func(s, v int) int { log.add2(s, v); return acc(s, v) }) })
 		noPanic()
 		expectInt(got, refFold(l, cs.V, acc), "acc threaded from the first element to the last")
+		foldCalls(c, cs, kind, log, l, acc)
 		if kind == "" {
-			term = fmt.Sprintf("CFold %s %s %s %s", L, core.Z(cs.V), coqAcc(cs.P), core.Z(got))
+			term = fmt.Sprintf("CFold %s %s %s %s %s", L, core.Z(cs.V), coqAcc(cs.P), core.Z(got), foldCallsTerm(log, toModel))
 		}
 	case "FoldReverse":
 		acc := accOf(cs.P)
 		var got int
-		call(func() { got = slices.FoldReverse(in, cs.V, acc) })
+		call(func() { got = slices.FoldReverse(in, cs.V, func(s, v int) int { log.add2(s, v); return acc(s, v) }) })
 		noPanic()
 		expectInt(got, refFoldRev(l, cs.V, acc), "acc threaded from the last element to the first")
-		term = fmt.Sprintf("CFoldReverse %s %s %s %s", L, core.Z(cs.V), coqAcc(cs.P), core.Res(kind, core.Z(got)))
+		rl := make([]int, n)
+		for i, v := range l {
+			rl[n-1-i] = v
+		}
+		foldCalls(c, cs, kind, log, rl, acc)
+		term = fmt.Sprintf("CFoldReverse %s %s %s %s %s", L, core.Z(cs.V), coqAcc(cs.P), core.Res(kind, core.Z(got)), foldCallsTerm(log, toModel))
 	case "GroupBy":
 		key := keyOf(cs.P[0])
 		var got []slices.Grouping[int, int]
-		call(func() { got = slices.GroupBy(in, key) })
+		call(func() { got = slices.GroupBy(in, func(v int) int { log.add1(v); return key(v) }) })
 		noPanic()
+		onlyElements()
+		unspecifiedCalls(searchCalls(l, func(int) bool { return false })) // keyer once per element in order: counted only
 		keys := make([]int, n)
 		for i, v := range l {
 			keys[i] = key(v)
@@ -695,8 +1020,10 @@ func execSlice(c *core.Ctx, cs Case) {
 	case "CountBy":
 		key := keyOf(cs.P[0])
 		var got []slices.Counting[int]
-		call(func() { got = slices.CountBy(in, key) })
+		call(func() { got = slices.CountBy(in, func(v int) int { log.add1(v); return key(v) }) })
 		noPanic()
+		onlyElements()
+		unspecifiedCalls(searchCalls(l, func(int) bool { return false })) // keyer once per element in order: counted only
 		keys := make([]int, n)
 		for i, v := range l {
 			keys[i] = key(v)
@@ -729,6 +1056,24 @@ func execSlice(c *core.Ctx, cs Case) {
 			call(func() { got = slices.ExceptSet(in, set) })
 			if set.Len() != len(firstOccsInts(cs.U)) {
 				c.Fail("ExceptSet modified the exclude set", set.String())
+			}
+			// the same with a sets.Set implementation that is not maps.Set (oracle only)
+			if kind == "" {
+				foreign := newListSet(cs.U)
+				var got2 []int
+				k2 := core.Try(func() { got2 = slices.ExceptSet(in, sets.Set[int](foreign)) })
+				c.Count("exceptset_foreign_set")
+				switch {
+				case k2 != "":
+					c.Fail("ExceptSet panicked with a sets.Set that is not maps.Set", k2)
+				case !core.Eq(got2, got):
+					c.Fail("ExceptSet: result depends on the Set implementation", diffLists(got2, got))
+				case *foreign.mutated || foreign.Len() != set.Len():
+					c.Fail("ExceptSet modified the exclude set", foreign.String())
+				}
+				if got2 != nil {
+					scribble(got2) // must be fresh too: the input is checked below
+				}
 			}
 		}
 		noPanic()
